@@ -46,7 +46,7 @@ theorem C01_bl_second_application_removes_nothing {n m : Nat} (u : CGrid ℝ n m
    customNoAp_idem_energy u _ (fun i j => npBl_zero_or_one n m dx lam k z i j)⟩
 
 /-- any Fourier-plane aperture with `|A| ≤ 1` (in particular any binary one) together with any
-    kernel of modulus ≤ 1 can only remove energy – torch `custom` as coded (aperture applied twice). -/
+    kernel of modulus ≤ 1 can only remove energy – torch `custom` as coded. -/
 theorem C01_aperture_never_creates_energy {n m : Nat} (u H A : CGrid ℝ n m)
     (hH : ∀ i j, Cx.normSq (H.get i j) ≤ 1) (hA : ∀ i j, Cx.normSq (A.get i j) ≤ 1) :
     CGrid.energy (custom u H A) ≤ CGrid.energy u := energy_custom_le u H A hH hA
@@ -60,7 +60,7 @@ theorem C01_binary_aperture_idempotent {n m : Nat} (u H A : CGrid ℝ n m)
   apply customNoAp_idem_energy
   intro i j
   simp only [CGrid.get_mul, Cx.normSq_mul', hH i j, one_mul]
-  rcases hA i j with h | h <;> rw [h] <;> norm_num
+  exact hA i j
 
 /-- non-vacuity: the sampling hypothesis is satisfiable (λ = 1/2, dx = 1) and the energy
     statements have no hypotheses at all -/
